@@ -23,6 +23,7 @@ from sim.props.base import Env, RunBase
 
 ID = 'C07'
 CHUNK = 100
+COLD_EVERY = 16      # restart fault: every 16th run executes in a process that has executed nothing since import
 setup = base.setup
 clean_start = base.clean_start
 chunk_end_clean = base.chunk_end_clean
@@ -66,7 +67,7 @@ def gen_plan(S, index, tier):
         cfg['small_alpha'] = False
     sp = SP.gen_pep(S, cfg)
     fault_free = S.coin(0.25)
-    faults = [] if fault_free else [f for f in ('interleave', 'abandon', 'poison', 'rng') if S.coin(0.55)]
+    faults = [] if fault_free else [f for f in ('interleave', 'abandon', 'poison', 'rng', 'scribble') if S.coin(0.55)]
     rules = S.sample(sorted(RULES), S.randint(1, 3))
     semi_ok = True
     if sp['intervals']:
@@ -116,6 +117,8 @@ def gen_plan(S, index, tier):
             choices.append(('query', 3.0))
         if 'rng' in faults:
             choices.append(('rng', 0.5))
+        if 'scribble' in faults and nl:
+            choices.append(('scribble', 2.0))
         act = S.weighted(choices)
         if act == 'open':
             fn = S.weighted([('digest', 6), ('left', 0.7 if semi_ok else 0), ('right', 0.7 if semi_ok else 0),
@@ -162,6 +165,10 @@ def gen_plan(S, index, tier):
                            'protein': S.pick(proteins)})
         elif act == 'rng':
             events.append({'act': 'rng', 'n': S.randint(1, 99)})
+        elif act == 'scribble':
+            # the consumer edits a peptide it received (its own object now), while other results are still being produced
+            events.append({'act': 'scribble', 'lazy': f'L{S.randint(0, nl - 1)}', 'k': S.randint(0, 999),
+                           'how': S.pick(['node', 'node', 'static', 'isotope', 'labile', 'unknown', 'nterm'])})
     for lh in open_l:
         if S.coin(0.7):
             events.append({'act': 'drain', 'lazy': lh, 'client': 0})
@@ -271,6 +278,8 @@ def execute(plan):
                 random.random()
             out.faults['rng'] += 1
             g0 = Env.G.cheap()
+        elif act == 'scribble':
+            stop = _do_scribble(run, ev_i, ev)
         else:
             raise HarnessError(act)
         if stop:
@@ -417,7 +426,47 @@ def _do_lazy(run, ev_i, ev):
     return False
 
 
-def _check_kept(run, ev_i, lz):
+def _do_scribble(run, ev_i, ev):
+    """The consumer edits, in place, one peptide annotation it was given.  Nothing else may move: not the protein (the
+    per-event ARG check), not any other peptide it holds (STABLE, all results), not what is yielded afterwards (the
+    per-item checks of later steps)."""
+    pt = Env.pt
+    out = run.out
+    lz = run.lazies.get(ev['lazy'])
+    kept = lz.get('kept') if lz else None
+    if not kept:
+        out.record([ev_i, 'noop'])
+        return False
+    k0, obj, nf0 = kept.pop(ev['k'] % len(kept))
+    others = [pr['p'] for pr in run.prot.values()]
+    for o in run.lazies.values():
+        others.extend(x[1] for x in o.get('kept', []))
+    how = ev.get('how', 'node')
+    try:
+        if how == 'static':
+            obj.add_static_mods([pt.Mod('[15.994915]@M', 1)], append=True)
+        elif how == 'isotope':
+            obj.add_isotope_mods([pt.Mod('15N', 1)], append=True)
+        elif how == 'labile':
+            obj.add_labile_mods([pt.Mod('Glycan:HexNAc', 1)], append=True)
+        elif how == 'unknown':
+            obj.add_unknown_mods([pt.Mod('Phospho', 1)], append=True)
+        elif how == 'nterm':
+            obj.add_nterm_mods([pt.Mod('Acetyl', 1)], append=True)
+        else:
+            how = world.scribble(obj, ev['k'], others) or 'nothing'
+    except Exception as e:
+        out.record([ev_i, 'scribble', how, N.norm_exc(e)])
+        return False
+    out.faults['scribble'] += 1
+    out.record([ev_i, 'scribble', how])
+    for o in run.lazies.values():
+        if o.get('kept') and _check_kept(run, ev_i, o, why=f"a sibling peptide was edited by its holder ({how})"):
+            return True
+    return False
+
+
+def _check_kept(run, ev_i, lz, why=None):
     for (k0, obj, nf0) in lz.get('kept', []):
         run.out.oracle_checks += 1
         d = N.same_strict(nf0, N.norm_ann(obj))
@@ -425,7 +474,7 @@ def _check_kept(run, ev_i, lz):
             lz['kept'] = []
             return run.violation('STABLE', lz['args']['fn'], 'kept-item',
                                  f"STABLE: item {k0} of {lz['args']['fn']}(return_type={lz['rt']!r}), kept by the consumer, "
-                                 f"changed after later items were produced: {d}", ev_i)
+                                 f"changed after {why or 'later items were produced'}: {d}", ev_i)
     return False
 
 
